@@ -6,6 +6,8 @@ def key_fn(case, obs, verdict):
     # cell <kind> <preload> <limit> <passes> <n> <consumers> <cancel>
     f = case.split(" ")
     o = obs.split(" ")
+    if f[0] == "engine":
+        return "engine:%s%s:run=%s" % (f[1], "+preload" if f[2] == "1" else "", o[2] if len(o) > 2 else "?")
     kind = f[1] + ("+preload" if f[2] == "1" else "")
     after = o[2] if len(o) > 2 else "?"
     run = o[3] if len(o) > 3 else "?"
